@@ -283,6 +283,11 @@ class Ctx:
             if cur.snap is not None:
                 self.model.set_state(cur.snap)
                 self.stats["setstate_inside_callback"] += 1
+        elif k == "loglevel":
+            # process state the user controls (S5): the level of the root logger
+            import logging
+            logging.getLogger().setLevel(getattr(logging, act[1]))
+            self.stats["user_loglevel_changes"] += 1
         elif k == "clock":
             CLOCK.advance(act[1])
             self.fired["clock"] += 1
